@@ -205,6 +205,30 @@ def check_lastrun(chk, prog):
                 ok = False
                 why = "add_rules_from_cached is not given info.last_run_at as mid_ts"
     chk.judge(ok, R, BR + "run_rules_impl:bookkeeping", "variants built from old last_run_at, then last_run_at := next_ts", why, f.loc)
+    # a rule that has never run must look at everything: last_run_at starts at timestamp 0
+    inits = []
+    for g in prog.lib_fns(["egglog_bridge"]):
+        if g.derived or (g.root or g.name).endswith("Clone>::clone"):
+            continue  # a clone copies the value
+        for i, j, s_ in g.assigns():
+            if s_[2][0] == "agg" and s_[2][2] == BR + "RuleInfo":
+                adt = prog.adts[BR + "RuleInfo"]
+                names = [fd["name"] for fd in adt["variants"][0]["fields"]]
+                at = g.origins(s_[2][4][names.index("last_run_at")])
+                ok0 = bool(at)
+                for a in at:
+                    if a[0] == "call" and a[1].endswith("NumericId>::new"):
+                        c0 = g.call_at(a[2])
+                        if not (c0.args and c0.args[0][0] == "k" and c0.args[0][1].startswith("0")):
+                            ok0 = False
+                    else:
+                        ok0 = False
+                inits.append((g, ok0, s_[3]))
+    chk.floor(R, len(inits), 1, "RuleInfo constructions")
+    for g, ok0, line in inits:
+        chk.judge(ok0, R, f"{g.root or g.name}:last_run_at-init", "a new rule starts with last_run_at = Timestamp(0): its first run sees every row, however old",
+                  "a new rule does not start at timestamp 0: rows written before the rule was added are never matched (semi-naive only looks at rows stamped >= last_run_at)",
+                  f"{g.file}:{line}")
     # writers
     model = rc.RebuildModel(prog)
     allowed = {f.name} | set(model.rebuilders)      # by role: the rule-set runner and the rebuilders
